@@ -174,34 +174,6 @@ def run(ck, tier):
                                'specification must be re-transcribed' % (OK_MD, diff[:5]))
         ck.cov['table_rows_equal_to_documentation_copy'] = len(doc_rows)
 
-    # ---- G, API level: availability.go against the transcription; checker against the table
-    api_in = rows + apis
-    api_out = run_api(sd, api_in, 'api')
-    api_viol = 0
-    for v, o in zip(api_in, api_out):
-        if o['others']:
-            raise Inconclusive('API vector %s / %s: observable not understood: %s' % (v['key'], v.get('name'), o['others'][:3]))
-        if v['kind'] == 'row':
-            exp = (low(v['ctx']), low(v['fns']))
-            got = (sorted(o.get('ctx') or []), sorted(o.get('fns') or []))
-            if exp != got:
-                api_viol += 1
-                ck.violation('api:' + v['key'],
-                             'WorkflowKeyAvailability(%r) returns contexts %s, special functions %s; GitHub\'s table %s: %s, %s'
-                             % (v['key'], got[0], got[1], 'lists' if v['intable'] else 'has no such key, expected', exp[0], exp[1]),
-                             {'kind': 'row', 'key': v['key'], 'intable': v['intable'], 'ctx': v['ctx'], 'fns': v['fns'],
-                              'observed_ctx': got[0], 'observed_fns': got[1]})
-        else:
-            if o['reported'] == v['allowed']:
-                api_viol += 1
-                ck.violation('api:' + v['key'],
-                             'ExprSemanticsChecker configured with WorkflowKeyAvailability(%r) %s %s %r; GitHub\'s table %s it'
-                             % (v['key'], 'reports' if o['reported'] else 'does not report', v['nkind'], v['name'],
-                                'allows' if v['allowed'] else 'does not allow'),
-                             {'kind': 'api', 'key': v['key'], 'name': v['name'], 'nkind': v['nkind'], 'intable': v['intable'],
-                              'allowed': v['allowed'], 'observed_reported': o['reported']})
-    ck.cov['api_vectors'] = len(api_in)
-
     # ---- G, Linter.Lint level: the complete cross product
     outs = run_lint(sd, vecs, 'lint')
     bad = lint_mismatches(vecs, outs)
@@ -212,6 +184,35 @@ def run(ck, tier):
         if len(still) != len(bad):
             raise Inconclusive('%d of %d disagreeing vectors did not reproduce on re-execution' % (len(bad) - len(still), len(bad)))
     judge_positions(ck, vecs, outs, bad)
+
+    # ---- G, API level: availability.go against the transcription; checker against the table
+    api_in = rows + apis
+    api_out = run_api(sd, api_in, 'api')
+    checker = collections.OrderedDict()
+    for v, o in zip(api_in, api_out):
+        if o['others']:
+            raise Inconclusive('API vector %s / %s: observable not understood: %s' % (v['key'], v.get('name'), o['others'][:3]))
+        if v['kind'] == 'row':
+            exp = (low(v['ctx']), low(v['fns']))
+            got = (sorted(o.get('ctx') or []), sorted(o.get('fns') or []))
+            if exp != got:
+                ck.violation('api:row:' + (v['key'] or '(empty)'),
+                             'WorkflowKeyAvailability(%r) returns contexts %s, special functions %s; GitHub\'s table %s: %s, %s'
+                             % (v['key'], got[0], got[1], 'lists' if v['intable'] else 'has no such key, expected', exp[0], exp[1]),
+                             {'kind': 'row', 'key': v['key'], 'intable': v['intable'], 'ctx': v['ctx'], 'fns': v['fns'],
+                              'observed_ctx': got[0], 'observed_fns': got[1]})
+        else:
+            for spelling, rep in (('documented', o['reported']), ('UPPER', o['reported_upper'])):
+                if rep == v['allowed']:
+                    checker.setdefault((v['name'], v['nkind'], spelling, v['allowed']), []).append(v['key'])
+    for (name, nkind, spelling, allowed), keys in checker.items():
+        ck.violation('api:checker:' + name,
+                     'ExprSemanticsChecker configured with WorkflowKeyAvailability(key) %s %s %r (%s spelling) although GitHub\'s '
+                     'table %s it, for %d keys: %s' % ('reports' if allowed else 'does not report', nkind, name, spelling,
+                                                       'allows' if allowed else 'does not allow', len(keys), keys[:6]),
+                     {'kind': 'api', 'name': name, 'nkind': nkind, 'spelling': spelling, 'allowed': allowed, 'keys': keys[:8],
+                      'observed_reported': allowed})
+    ck.cov['api_vectors'] = len(api_in)
 
     # ---- vacuity guard: at every governed position both verdicts must have been observed on the real code
     if not bad:
@@ -290,8 +291,12 @@ def replay(path):
         exp = (low(rp['ctx']), low(rp['fns']))
         print('WorkflowKeyAvailability(%r) = %s, table: %s' % (rp['key'], got, exp))
         return 0 if got == exp else 1
-    v = {'kind': 'api', 'key': rp['key'], 'name': rp['name'], 'nkind': rp['nkind']}
-    o = run_api(sd, [v], 'replay')[0]
-    print('key %r, %s %r: table allows=%s, checker reported=%s others=%s'
-          % (rp['key'], rp['nkind'], rp['name'], rp['allowed'], o['reported'], o['others']))
-    return 1 if (not o['others'] and o['reported'] == rp['allowed']) else 0
+    vecs = [{'kind': 'api', 'key': k, 'name': rp['name'], 'nkind': rp['nkind']} for k in rp['keys']]
+    fails = 0
+    for v, o in zip(vecs, run_api(sd, vecs, 'replay')):
+        rep = o['reported_upper'] if rp['spelling'] == 'UPPER' else o['reported']
+        print('key %r, %s %r (%s spelling): table allows=%s, checker reported=%s others=%s'
+              % (v['key'], rp['nkind'], rp['name'], rp['spelling'], rp['allowed'], rep, o['others']))
+        if not o['others'] and rep == rp['allowed']:
+            fails += 1
+    return 1 if fails else 0
